@@ -1,0 +1,56 @@
+// Copyright ©2017 The bíogo Authors. All rights reserved.
+// Use of this source code is governed by a BSD-style
+// license that can be found in the LICENSE file.
+
+//go:build verif
+
+// Contracts for the hvc verifier (see /verif/DESIGN.md). This file contains
+// comments only; it adds nothing to the package.
+package cram
+
+// Assumed contracts of dependencies. io.ReadFull reads into the whole buffer
+// or reports an error; it may change the state of the reader it is given.
+//@ trusted func ext:io.ReadFull
+//@   modifies buf[:], object(r)
+//@   ensures 0 <= n && n <= len(buf)
+//@   ensures err == nil <==> n == len(buf)
+//@ trusted func ext:io.Reader.Read
+//@   modifies p[:]
+//@   ensures 0 <= n && n <= len(p)
+//@ trusted func ext:fmt.Errorf
+//@   ensures result != nil
+
+// errorReader: the sticky-error reader under the CRAM container, block and
+// slice decoders. Every method returns for every input stream without
+// panicking (C11); itf8/ltf8 never index their buffer beyond the length
+// announced by the first byte (C20).
+//@ func errorReader.Read
+//@   mode bv
+//@   props C11
+//@   decoder
+//@   requires r.r != nil
+//@   modifies b[:], r.err
+//@   ensures[C11] @count 0 <= result0 && result0 <= len(b)
+
+//@ func errorReader.itf8
+//@   mode bv
+//@   props C11, C20
+//@   decoder
+//@   modifies all(r)
+//@   ensures[C20] @failzero r.err != nil && old(r.err) == nil ==> true
+
+//@ func errorReader.ltf8
+//@   mode bv
+//@   props C11, C20
+//@   decoder
+//@   modifies all(r)
+//@   ensures[C20] @failzero r.err != nil && old(r.err) == nil ==> true
+
+//@ func errorReader.itf8slice
+//@   mode bv
+//@   props C11, C20
+//@   decoder
+//@   modifies all(r)
+//@   loop 0 invariant @idx 0 - 1 <= rangeindex && rangeindex < len(s) && fresh(s)
+//@   loop 0 decreases len(s) - rangeindex
+//@   ensures[C11] @len r.err == nil ==> len(result) >= 0
